@@ -710,9 +710,10 @@ func c15Gen(c *Ctx) {
 			c15Eval(c, Case{"op": "faults", "operation": od[0], "dep": od[1], "img": hx(signed)})
 		}
 		// images that carry SEVERAL signatures (dual signing, a vendor's signature next to the owner's), by different
-		// certificates; the certificate handed to Verify (key 0) is that of the LAST signature, so Verify reads the
-		// image once per signature before it finds its signer: a read that fails during any of these passes is a
-		// failed read of the operation, whichever signature was being checked
+		// certificates; the certificate handed to Verify (key 0) is that of the LAST signature, so Verify looks at
+		// every signature before it finds its signer (until F38 it read the image once per signature, since then once
+		// per call - the positions are those of the fault-free run either way): a read that fails is a failed read of
+		// the operation, whichever signature was being checked
 		multi := [][]int{{1, 0}}
 		if c.Thorough {
 			multi = append(multi, []int{1, 2, 0}, []int{0, 1})
@@ -747,7 +748,7 @@ func c15Gen(c *Ctx) {
 
 func init() {
 	register("C15", &PropDef{
-		Rule:   "operations {sign blob, sign variable, write variable, signed update, read variable, parse / hash / sign / verify image} x the dependency they use (crypto.Signer, afero.Fs/afero.File, io.ReaderAt): the calls of the fault-free run are counted and then EVERY call position k is failed in turn (exhaustive per input) with each fault kind (error; for the filesystem also a write/read count of n-1 and of 0; for the reader also a short count with io.ErrUnexpectedEOF and, once Parse has fixed the sizes, a short count with io.EOF and an empty read with io.EOF), on unsigned and on already signed images, in a worker process. THE IDENTITY OF THE ERROR: for every dependency (signer, filesystem call, ReaderAt, sequential reader) and at every call position the failing call also returns, with no data, an error that WRAPS a sentinel - io.EOF (fmt.Errorf(\"...: %w\", io.EOF), as layered / remote filesystems and network readers produce), io.ErrUnexpectedEOF, fs.ErrClosed (inside a *fs.PathError), context.Canceled, context.DeadlineExceeded: the call failed, and a wrapped io.EOF is not the bare io.EOF that ends a file or stream, so the operation must return an error and no value (for the Lean model of the streamed digest these are the plain error). IMAGES WITH SEVERAL SIGNATURES: every image is also signed twice by different certificates (thorough: also three times, and with the matching certificate first) and Verify is run with the certificate of the LAST signature under every reader fault kind at every ReadAt of the fault-free run - Verify reads the image once per signature, and a read that fails while an earlier signature is being checked is a failed read of the operation; Hash is run on these images too. Write variable is exercised through the object API (EFIFS over FSWrapper.SetFS) and through the three entry points of the legacy package-level writer (attributes.WriteEfivarsWithGuid, attributes.WriteEfivars, efi.WriteEFIVariable, filesystem installed with fs.SetFS), each at every call position (OpenFile, Write, Close) with every filesystem fault kind. The other public entry points of the same operations are failed in the same way: read variable through FSWrapper.ReadEfivarsFile, attributes.ReadEfivarsFile and attributes.ReadEfivars (name alone), through the typed getters Efivarfs.Getdb / efi.Getdb (the value returned without an error must be the stored database) and Efivarfs.GetSecureBoot; FSWrapper.WriteFile (every fault kind incl. short writes, F36) and FSWrapper.ReadFile (open, read and close faults); authenticode.SignAuthenticode with a failing signer and with a caller-supplied io.Reader whose k-th Read fails (no data, or half the data with the error), Authenticode.Verify with such a reader, and the image read back through Open() (error, short count with io.ErrUnexpectedEOF, short counts without an error). Which filesystem call has index k (a short count bites on Write only, a dropped Close is named as such) is taken from the call sequence the worker recorded in the fault-free run, for every operation. Reported finding left out of the routine run (the kind stays available for replays): efi.Getdb and its siblings GetPK / GetKEK / Getdbx answer a failure whose error wraps io.EOF with an empty database and no error, so read-db-legacy is run without the wraps-eof kind. Not generated, because they lie outside the statement (noted in DESIGN.md section 7; the worker operations exist for replays): a reader that ends early with io.EOF under Open(), Bytes() and the getters that have no error result (efi.GetSecureBoot / GetSetupMode / GetBootOrder, Efivarfs.GetBootOrder), a failed Stat in FSWrapper.ReadFile. Checked: the result is an error (no digest for Hash), never success or a wrong value; a failed signing leaves Bytes() and Signatures() unchanged; a failed signer writes nothing. Every (operation, input, k, kind) is non-trivial and distinct.",
+		Rule:   "operations {sign blob, sign variable, write variable, signed update, read variable, parse / hash / sign / verify image} x the dependency they use (crypto.Signer, afero.Fs/afero.File, io.ReaderAt): the calls of the fault-free run are counted and then EVERY call position k is failed in turn (exhaustive per input) with each fault kind (error; for the filesystem also a write/read count of n-1 and of 0; for the reader also a short count with io.ErrUnexpectedEOF and, once Parse has fixed the sizes, a short count with io.EOF and an empty read with io.EOF), on unsigned and on already signed images, in a worker process. THE IDENTITY OF THE ERROR: for every dependency (signer, filesystem call, ReaderAt, sequential reader) and at every call position the failing call also returns, with no data, an error that WRAPS a sentinel - io.EOF (fmt.Errorf(\"...: %w\", io.EOF), as layered / remote filesystems and network readers produce), io.ErrUnexpectedEOF, fs.ErrClosed (inside a *fs.PathError), context.Canceled, context.DeadlineExceeded: the call failed, and a wrapped io.EOF is not the bare io.EOF that ends a file or stream, so the operation must return an error and no value (for the Lean model of the streamed digest these are the plain error). IMAGES WITH SEVERAL SIGNATURES: every image is also signed twice by different certificates (thorough: also three times, and with the matching certificate first) and Verify is run with the certificate of the LAST signature under every reader fault kind at every ReadAt of the fault-free run - Verify looks at every signature before it finds its signer (it read the image once per signature until F38 and reads it once per call since; the ReadAt positions are those counted in the fault-free run either way), and a read that fails while an earlier signature is being checked is a failed read of the operation; Hash is run on these images too. Write variable is exercised through the object API (EFIFS over FSWrapper.SetFS) and through the three entry points of the legacy package-level writer (attributes.WriteEfivarsWithGuid, attributes.WriteEfivars, efi.WriteEFIVariable, filesystem installed with fs.SetFS), each at every call position (OpenFile, Write, Close) with every filesystem fault kind. The other public entry points of the same operations are failed in the same way: read variable through FSWrapper.ReadEfivarsFile, attributes.ReadEfivarsFile and attributes.ReadEfivars (name alone), through the typed getters Efivarfs.Getdb / efi.Getdb (the value returned without an error must be the stored database) and Efivarfs.GetSecureBoot; FSWrapper.WriteFile (every fault kind incl. short writes, F36) and FSWrapper.ReadFile (open, read and close faults); authenticode.SignAuthenticode with a failing signer and with a caller-supplied io.Reader whose k-th Read fails (no data, or half the data with the error), Authenticode.Verify with such a reader, and the image read back through Open() (error, short count with io.ErrUnexpectedEOF, short counts without an error). Which filesystem call has index k (a short count bites on Write only, a dropped Close is named as such) is taken from the call sequence the worker recorded in the fault-free run, for every operation. Reported finding left out of the routine run (the kind stays available for replays): efi.Getdb and its siblings GetPK / GetKEK / Getdbx answer a failure whose error wraps io.EOF with an empty database and no error, so read-db-legacy is run without the wraps-eof kind. Not generated, because they lie outside the statement (noted in DESIGN.md section 7; the worker operations exist for replays): a reader that ends early with io.EOF under Open(), Bytes() and the getters that have no error result (efi.GetSecureBoot / GetSetupMode / GetBootOrder, Efivarfs.GetBootOrder), a failed Stat in FSWrapper.ReadFile. Checked: the result is an error (no digest for Hash), never success or a wrong value; a failed signing leaves Bytes() and Signatures() unchanged; a failed signer writes nothing. Every (operation, input, k, kind) is non-trivial and distinct.",
 		Assume: []string{"a short count counts as a fault only on the call that moves data (Write / Read)", "during Parse an early io.EOF from the caller's reader is indistinguishable from a shorter file and is not injected there", "an early io.EOF from a caller-supplied sequential io.Reader (SignAuthenticode, Authenticode.Verify) is the end of the data and is not injected", "FSWrapper.ReadFile uses Stat only for a capacity hint (as os.ReadFile does): a failed Stat is not a fault of the read and is not injected"},
 		Eval:   c15Eval, Gen: c15Gen,
 	})
